@@ -119,7 +119,7 @@ func cLayers(th bool) []cLayer {
 	if th {
 		return []cLayer{{alphaFull, 1}, {alphaFull, 2}, {alphaFull, 3}, {alphaLow, 4}, {alphaSmall2, 5}, {alphaTiny, 6}}
 	}
-	return []cLayer{{alphaFull, 1}, {alphaFull, 2}, {alphaMid, 3}, {alphaSmall, 4}, {alphaTiny, 5}}
+	return []cLayer{{alphaFull, 1}, {alphaFull, 2}, {alphaMid, 3}, {alphaSmall, 4}}
 }
 
 func cBoundsDoc(th bool) string {
@@ -554,7 +554,7 @@ func (m *machine) run(b []*node, loopOK bool) {
 	}
 }
 
-const cOutputBudget = 200_000 // bytes of expected output; larger programs are skipped (none inside the bounds)
+const cOutputBudget = 200_000 // bytes of expected output; larger programs are skipped and counted (string b doubling in nested loops over b)
 
 func runC(t *vlib.T) {
 	for _, l := range cLayers(t.Thorough()) {
